@@ -13,7 +13,7 @@ Invoke(kind, src, look) ==
     /\ n < NCalls /\ n' = n + 1
     /\ (src = "owner" => owner = "running")
     /\ LET r == InvokeResult(kind, src, owner) IN
-         /\ c' = Append(c, [kind |-> kind, src |-> src, st |-> r.st, execOn |-> r.execOn, ret |-> r.ret])
+         /\ c' = Append(c, [kind |-> kind, src |-> src, st |-> r.st, execOn |-> r.execOn, ret |-> r.ret, rep |-> "none"])
          /\ q' = IF r.enq THEN Append(q, n + 1) ELSE q
     /\ UNCHANGED owner
 (* the owner's loop runs the head of its queue on its own thread; a coroutine's outcome is relayed to the caller *)
@@ -21,7 +21,8 @@ OwnerStep ==
     /\ owner = "running" /\ q # <<>>
     /\ LET i == Head(q) IN
          c' = [c EXCEPT ![i].st = "executed", ![i].execOn = "owner",
-                        ![i].ret = IF IsCoro(c[i].kind) THEN Relayed(c[i].kind) ELSE c[i].ret]
+                        ![i].ret = IF IsCoro(c[i].kind) THEN Relayed(c[i].kind) ELSE c[i].ret,
+                        ![i].rep = Reported(c[i].kind)]
     /\ q' = Tail(q) /\ UNCHANGED <<owner, n>>
 (* a coroutine called directly on the owner's loop completes *)
 DirectCoroDone(i) == /\ i \in 1 .. Len(c) /\ c[i].src = "owner" /\ IsCoro(c[i].kind) /\ c[i].ret = "pending"
@@ -34,6 +35,9 @@ ExecOnOwner == \A i \in 1 .. Len(c) : c[i].st = "executed" => c[i].execOn = "own
 NeverOnCaller == \A i \in 1 .. Len(c) : c[i].execOn \in {"owner", "nobody"}
 RelayedExactly == \A i \in 1 .. Len(c) : (IsCoro(c[i].kind) /\ c[i].st = "executed" /\ c[i].ret # "pending") => c[i].ret = BodyOutcome(c[i].kind)
 PlainReturnsNothing == \A i \in 1 .. Len(c) : (~IsCoro(c[i].kind) /\ c[i].src = "other" /\ c[i].kind # "notCallable") => c[i].ret = "none"
+(* a queued plain call that hands back a value (any value) or raises is reported on the owner's loop, and only such a call is *)
+ValueReported == \A i \in 1 .. Len(c) : (c[i].st = "executed" /\ c[i].src = "other" /\ ~IsCoro(c[i].kind))
+                                          => (c[i].rep = "typeerror") = (BodyOutcome(c[i].kind) = "val")
 DroppedNeverRuns == \A i \in 1 .. Len(c) : c[i].st = "dropped" => (c[i].execOn = "nobody" /\ c[i].ret = "none")
 NotCallableRefused == \A i \in 1 .. Len(c) : c[i].kind = "notCallable" => (c[i].st = "refused" /\ c[i].ret = "typeerror")
 =============================================================================
